@@ -68,6 +68,8 @@ class FakeOP:
             at = f"at-{WHO[self.iss]}-{self.n}"
             self.ats[at] = flow
             out = {"access_token": at, "token_type": "Bearer"}
+            if self.plan.get("resp_state"):
+                out["state"] = self.plan["resp_state"]       # a member the token response has no business with: it must not steer anything
             idt = None
             if self.plan.get("idt", True):
                 nonce = None if self.plan.get("drop_nonce") else idt_flow["nonce"]
@@ -140,7 +142,8 @@ def gen(rng, n):
                             "idt_of": (other if cross and rng.random() < 0.5 else f)}])
         elif k == "tokens":
             ops.append(["tokens", {"flow": f, "idt_of": other if cross else f, "idt": rng.random() < 0.9, "drop_nonce": cross and rng.random() < 0.2,
-                                   "sub": rng.choice([None, None, "nonce-of", "sub-mallory"]) if cross else None, "sub_of": other}])
+                                   "sub": rng.choice([None, None, "nonce-of", "sub-mallory"]) if cross else None, "sub_of": other,
+                                   "resp_state_of": rng.choice([None, None, other, f]) if cross else None}])
         else:
             ops.append(["userinfo", {"flow": f, "user_of": other if cross else f}])
     return ops
@@ -148,12 +151,62 @@ def gen(rng, n):
 
 def cases(rng, tier):
     n = {"quick": 120, "thorough": 2500, "search": 1200}[tier]
-    return [{"t": "hist", "ops": gen(rng, rng.randint(5, 14))} for _ in range(n)]
+    out = [{"t": "hist", "ops": gen(rng, rng.randint(5, 14))} for _ in range(n)]
+    # the plain OAuth2 client (its services are a class family of their own), configured statically the way the social-login examples are:
+    # issuer at the top level, provider_info holding endpoints only
+    for _ in range({"quick": 12, "thorough": 200, "search": 100}[tier]):
+        ops = [["begin"]]
+        for _ in range(rng.randint(2, 6)):
+            ops.append(rng.choice([["begin"], ["authz", {"flow": rng.randrange(3), "iss": rng.choice([None, "own", "other", "other"]),
+                                                           "state": rng.choice(["own", "own", "own", "unknown"])}]]))
+        out.append({"t": "o2", "ops": ops})
+    return out
+
+
+def _o2_impl(c):
+    from idpyoidc.client.oauth2.stand_alone_client import StandAloneClient
+    conf = {"base_url": "https://rp.example.com", "client_id": CID, "client_type": "oauth2", "client_secret": rpbase.SECRET,
+            "redirect_uris": ["https://rp.example.com/cb"], "issuer": ISS,
+            "provider_info": {"authorization_endpoint": ISS + "/authorization", "token_endpoint": ISS + "/token"}}
+    rp = StandAloneClient(config=conf, httpc=FakeOP(ISS))
+    rp.do_provider_info()
+    rp.do_client_registration()
+    flows, steps = [], []
+    for o in c["ops"]:
+        if o[0] == "begin":
+            url = rp.init_authorization(req_args={"response_type": "code"})
+            st = parse_qs(urlsplit(url).query)["state"][0]
+            flows.append({"state": st, "code": "code-o2-%d" % len(flows)})
+            steps.append({"r": "ok", "model": ["begin", ISS, st, None]})
+            continue
+        a = o[1]
+        fl = flows[a["flow"] % len(flows)]
+        st = fl["state"] if a["state"] == "own" else "no-such-state-0123456789abcdef"
+        resp = {"code": fl["code"], "state": st}
+        if a["iss"]:
+            resp["iss"] = ISS if a["iss"] == "own" else ISSJ
+        rec = {"model": ["authz", ISS, st, fl["code"], resp.get("iss"), None, None], "foreign_iss": a["iss"] == "other", "known_state": a["state"] == "own"}
+        try:
+            rp.finalize_auth(resp)
+            rec["r"] = "ok"
+        except Exception as e:
+            rec["r"], rec["how"] = "rej", type(e).__name__
+        try:
+            rec["stored_code"] = rp.get_context().cstate.get(fl["state"]).get("code")
+        except Exception:
+            rec["stored_code"] = None
+        rec["code"] = fl["code"]
+        steps.append(rec)
+    return {"steps": steps}
 
 
 def corpus():
     f0 = {"to": "own", "state_of": 0, "state": "own", "code_of": 0, "iss": None, "cid": None, "idt_of": 0}
     return [
+        # a token response naming another pending flow's state (same issuer), with that flow's ID token or with this one's
+        {"t": "hist", "ops": [["begin", 0, "alice", "code"], ["begin", 0, "bob", "code"], ["authz", f0], ["authz", dict(f0, state_of=1, code_of=1, idt_of=1)],
+                              ["tokens", {"flow": 1, "idt_of": 0, "idt": True, "drop_nonce": False, "sub": None, "sub_of": 0, "resp_state_of": 0}],
+                              ["tokens", {"flow": 1, "idt_of": 1, "idt": True, "drop_nonce": False, "sub": None, "sub_of": 0, "resp_state_of": 0}]]},
         # F-C09-a: a sub equal to the other flow's nonce, then that flow's nonce in a token response of this flow
         {"t": "hist", "ops": [["begin", 0, "alice", "code"], ["begin", 0, "bob", "code"], ["authz", f0],
                               ["tokens", {"flow": 0, "idt_of": 0, "idt": True, "drop_nonce": False, "sub": "nonce-of", "sub_of": 1}],
@@ -164,6 +217,8 @@ def corpus():
 
 
 def impl(c):
+    if c["t"] == "o2":
+        return _o2_impl(c)
     W = World()
     steps = []
     for o in c["ops"]:
@@ -218,6 +273,8 @@ def impl(c):
                     sub = W.flows[a["sub_of"]]["nonce"]
                 idt_flow = W.flows[a["idt_of"]]
                 op.plan = {"idt_flow": idt_flow, "idt": a["idt"], "drop_nonce": a["drop_nonce"], "sub": sub}
+                if a.get("resp_state_of") is not None:
+                    op.plan["resp_state"] = W.flows[a["resp_state_of"]]["state"]
                 op.last = "not-called"
                 try:
                     W.rph.issuer2rp[fl["iss"]].get_tokens(fl["state"])
@@ -257,7 +314,7 @@ def _idt(i):
 
 
 def model_lines(c, obs):
-    lines = ["\t".join(["rps", "reset", common.enc_list(ISSUERS), enc_str(CID)])]
+    lines = ["\t".join(["rps", "reset", common.enc_list(ISSUERS if c["t"] != "o2" else [ISS]), enc_str(CID)])]
     for st in obs["steps"]:
         m = st["model"]
         if m is None or st.get("composite"):
@@ -299,6 +356,12 @@ def _parse_dump(fields):
 
 
 def compare(c, obs, outs):
+    if c["t"] == "o2":
+        for i, (st, o) in enumerate(zip(obs["steps"], outs[1:])):
+            ok = o.split("\t")[0] == "ok"
+            if ok != (st["r"] == "ok"):
+                return [f"OAuth2 client, step {i} {c['ops'][i]}: model={'accepted' if ok else 'rejected'} impl={st['r']} ({st.get('how')})"]
+        return []
     # composite steps (RPHandler.finalize) are checked by the oracle only: resynchronising the model mid-history is not possible, so such
     # histories are compared up to the first composite step
     for i, (st, o) in enumerate(zip(obs["steps"], outs[1:])):
@@ -321,6 +384,17 @@ def compare(c, obs, outs):
 
 def oracle(c, obs):
     v = []
+    if c["t"] == "o2":
+        for i, st in enumerate(obs["steps"]):
+            if st["model"][0] == "begin":
+                continue
+            if st["r"] == "ok" and (st["foreign_iss"] or not st["known_state"]):
+                v.append({"cls": "mixup-accepted", "client": "oauth2", "foreign_iss": st["foreign_iss"], "known_state": st["known_state"]})
+            if st["r"] != "ok" and st["stored_code"] == st["code"] and st["known_state"] and st["foreign_iss"]:
+                # (the code may be there from an earlier, accepted delivery of the same flow: only flag when none was accepted)
+                if not any(p["r"] == "ok" and p.get("code") == st["code"] for p in obs["steps"][:i] if p["model"][0] == "authz"):
+                    v.append({"cls": "rejected-response-changed-the-store", "client": "oauth2", "step": i})
+        return v
     for i, st in enumerate(obs["steps"]):
         b, a = st["before"], st["after"]
         if st["r"] != "ok" and not st.get("composite") and a != b:
@@ -351,7 +425,7 @@ def known_key(c, v, known):
 
 
 def classify(c, obs):
-    return "hist:" + ",".join(sorted({f"{o[0]}:{s['r']}" for o, s in zip(c["ops"], obs["steps"])}))
+    return ("o2:" if c["t"] == "o2" else "hist:") + ",".join(sorted({f"{o[0]}:{s['r']}" for o, s in zip(c["ops"], obs["steps"])}))
 
 
 def nontrivial(c, obs):
